@@ -28,17 +28,17 @@ func (s *vfSpeakerList) Rejoin()                                     {}
 
 // vfView is a cluster view shared by all speakers.
 type vfView struct {
-	Nodes      []vw.NodeSpec   `json:"nodes"`
-	Alive      []bool          `json:"alive"` // speaker alive per node (memberlist)
-	GhostAlive bool            `json:"ghost_alive,omitempty"`
-	Disabled   bool            `json:"memberlist_disabled,omitempty"`
-	Ignore     bool            `json:"ignore_exclude_lb,omitempty"`
-	L2         []vw.L2AdvSpec  `json:"l2"`
-	BGP        []vw.BGPAdvSpec `json:"bgp,omitempty"`
+	Nodes      []vw.NodeSpec     `json:"nodes"`
+	Alive      []bool            `json:"alive"` // speaker alive per node (memberlist)
+	GhostAlive bool              `json:"ghost_alive,omitempty"`
+	Disabled   bool              `json:"memberlist_disabled,omitempty"`
+	Ignore     bool              `json:"ignore_exclude_lb,omitempty"`
+	L2         []vw.L2AdvSpec    `json:"l2"`
+	BGP        []vw.BGPAdvSpec   `json:"bgp,omitempty"`
 	PoolLabels map[string]string `json:"pool_labels,omitempty"`
-	Local      bool            `json:"local,omitempty"`
-	Slices     []vw.SliceSpec  `json:"slices"`
-	IPs        []string        `json:"ips"`
+	Local      bool              `json:"local,omitempty"`
+	Slices     []vw.SliceSpec    `json:"slices"`
+	IPs        []string          `json:"ips"`
 }
 
 func (v vfView) cluster() vw.ClusterSpec {
@@ -166,7 +166,7 @@ func genView(rt *rapid.T, maxNodes int) vfView {
 	n := rapid.IntRange(1, maxNodes).Draw(rt, "nnodes")
 	for i := 0; i < n; i++ {
 		v.Nodes = append(v.Nodes, vw.NodeSpec{Name: fmt.Sprintf("node%d", i), Labels: vw.GenLabels(rt, "nlabels"), IPs: []string{fmt.Sprintf("192.168.0.%d", i+1)},
-			Unavailable: rapid.IntRange(0, 5).Draw(rt, "unavail") == 0, Excluded: rapid.IntRange(0, 5).Draw(rt, "excluded") == 0})
+			Unavailable: rapid.IntRange(0, 5).Draw(rt, "unavail") == 0}.WithExcl(vw.GenExcl(rt, 6)))
 		v.Alive = append(v.Alive, rapid.IntRange(0, 4).Draw(rt, "alive") != 0)
 	}
 	v.GhostAlive = rapid.IntRange(0, 9).Draw(rt, "ghost") == 0
@@ -265,7 +265,7 @@ func keysOf(m map[string]bool) []string {
 
 func TestVerifC04Views(t *testing.T) {
 	vw.Run(t, vw.Options{Property: "C04", Engine: "views",
-		Rule: "cluster views (1..5 nodes with speaker alive / NetworkUnavailable / exclude label / labels, ghost speaker, memberlist on/off, ignore-exclude flag, 0..3 L2 advertisements with node and pool selectors, both traffic policies, 0..3 endpoint slices with ready/serving in {nil,true,false} and node names incl. missing, v4/v6/dual addresses); the real ShouldAnnounce is evaluated on every node; non-trivial = >=2 eligible nodes, or eligible set != node set",
+		Rule:        "cluster views (1..5 nodes with speaker alive / NetworkUnavailable / exclude label / labels, ghost speaker, memberlist on/off, ignore-exclude flag, 0..3 L2 advertisements with node and pool selectors, both traffic policies, 0..3 endpoint slices with ready/serving in {nil,true,false} and node names incl. missing, v4/v6/dual addresses); the real ShouldAnnounce is evaluated on every node; non-trivial = >=2 eligible nodes, or eligible set != node set",
 		Assumptions: []string{"all speakers share the view (same nodes, membership, configuration, endpoints)"}},
 		func(rt *rapid.T) vfView { return genView(rt, 5) },
 		func(v vfView, tr *vw.Trace) *vw.Violation {
@@ -462,7 +462,7 @@ func genBGPView(rt *rapid.T) vfBGPView {
 	n := rapid.IntRange(1, 3).Draw(rt, "nnodes")
 	for i := 0; i < n; i++ {
 		v.Nodes = append(v.Nodes, vw.NodeSpec{Name: fmt.Sprintf("node%d", i), Labels: vw.GenLabels(rt, "nlabels"), IPs: []string{fmt.Sprintf("192.168.0.%d", i+1)},
-			Unavailable: rapid.IntRange(0, 5).Draw(rt, "unavail") == 0, Excluded: rapid.IntRange(0, 4).Draw(rt, "excluded") == 0})
+			Unavailable: rapid.IntRange(0, 5).Draw(rt, "unavail") == 0}.WithExcl(vw.GenExcl(rt, 5)))
 		v.Alive = append(v.Alive, true)
 	}
 	v.Ignore = rapid.IntRange(0, 2).Draw(rt, "ignore") == 0
@@ -595,7 +595,7 @@ func runBGPView(b vfBGPView, tr *vw.Trace) *vw.Violation {
 
 func TestVerifC10Views(t *testing.T) {
 	vw.Run(t, vw.Options{Property: "C10", Engine: "views",
-		Rule: "1..3 nodes (conditions, labels, exclude label), ignore flag, 0..3 BGP advertisements with node/pool selectors, both policies, 0..3 slices x 0..4 endpoints over a 3-address alphabet with ready/serving in {nil,true,false} and node in {nodes, none, unknown}; closed-form iff on the domain where an endpoint address lives on one node, two safe implications on the unrestricted domain; non-trivial = repeated address, conflicting conditions, Local with endpoints only elsewhere, or exclude label with ignore flag",
+		Rule:        "1..3 nodes (conditions, labels, exclude label), ignore flag, 0..3 BGP advertisements with node/pool selectors, both policies, 0..3 slices x 0..4 endpoints over a 3-address alphabet with ready/serving in {nil,true,false} and node in {nodes, none, unknown}; closed-form iff on the domain where an endpoint address lives on one node, two safe implications on the unrestricted domain; non-trivial = repeated address, conflicting conditions, Local with endpoints only elsewhere, or exclude label with ignore flag",
 		Assumptions: []string{"main domain: all entries carrying an endpoint address name the same node (a pod IP is on one node)"}},
 		genBGPView, runBGPView)
 }
@@ -710,7 +710,7 @@ func c10ViewAt(i int) vfBGPView {
 
 func TestVerifC10Exhaustive(t *testing.T) {
 	vw.RunEnum(t, vw.Options{Property: "C10", Engine: "exhaustive-views",
-		Rule: "complete enumeration (thorough tier; the quick tier visits every 2048th view, offset by the seed): this node x (selected / pool advertised from other nodes only / only another pool advertised) x NetworkUnavailable x exclude label x ignore flag x traffic policy x home node of endpoint addresses A and B in {this node, other node, none} x 3 endpoint-slice entries each absent or (A/B, ready nil/true/false, serving nil/true/false, slice 0/1) = 21 882 096 views; closed-form iff of the statement; non-trivial as in the views engine",
+		Rule:        "complete enumeration (thorough tier; the quick tier visits every 2048th view, offset by the seed): this node x (selected / pool advertised from other nodes only / only another pool advertised) x NetworkUnavailable x exclude label x ignore flag x traffic policy x home node of endpoint addresses A and B in {this node, other node, none} x 3 endpoint-slice entries each absent or (A/B, ready nil/true/false, serving nil/true/false, slice 0/1) = 21 882 096 views; closed-form iff of the statement; non-trivial as in the views engine",
 		Assumptions: []string{"every entry carrying an endpoint address names the same node (a pod IP is on one node)"}},
 		c10EnumSize, 2048, c10ViewAt, runBGPView)
 }
